@@ -1,5 +1,5 @@
 PROP = {
-    "thm": "Umya.Thm.C18",
+    "thm": ["Umya.Thm.C18", "Umya.Thm.C18Gen"],
     "harness": "c18",
     "level": "proof",
     "stateful": False,
@@ -15,7 +15,7 @@ PROP = {
                   "monotonicity of the f64 results is established only by the harness oracle (every 97th day x 5 times + 86 400 seconds "
                   "per quick run; every day x 5 times + 12 x 86 400 seconds per thorough run). chrono's calendar is represented by the "
                   "reference calendar (trusted). Display: model-vs-implementation and oracle only, no theorem.",
-    "expect_theorems": ["C18_tables_match_source", "C18_days", "C18_days_1900", "C18_monotone", "C18_civil_roundtrip", "C18_civil_roundtrip_inv",
+    "expect_theorems": ["C18_date_fns_match_source", "C18_tables_match_source", "C18_days", "C18_days_1900", "C18_monotone", "C18_civil_roundtrip", "C18_civil_roundtrip_inv",
                         "C18_civil_valid", "C18_civil_monotone", "C18_convert", "C18_time_exact", "C18_time_exact_no_loss",
                         "C18_roundtrip_exact"],
     "rule": "quick: every 97th day 1900-01-01..9999-12-31 x {00:00:00, 00:00:01, 11:59:59, 12:00:00, 23:59:59}; every second of one "
